@@ -8,10 +8,14 @@ Q: every real number is p/q (exact rationals; inputs must be exactly representab
 """
 import os
 import struct
+import sys
 import subprocess
 from fractions import Fraction
 
 import numpy as np
+
+if hasattr(sys, 'set_int_max_str_digits'):
+    sys.set_int_max_str_digits(0)
 
 HERE = os.path.dirname(os.path.abspath(__file__))
 ROOT = os.path.dirname(HERE)
